@@ -222,6 +222,14 @@ def generate(seed: int, tier: str) -> dict:
                 k = rng.choice(gone)  # assign a key again that was deleted earlier in this history
             else:
                 k = rng.choice(keys) if keys and rng.random() < 0.5 else rng.choice(gen.FRESH[:4] + gen.NAMES)
+            leaf_keys = [x for x in keys if not isinstance(base[x], dict) and x != k]
+            if leaf_keys and rng.random() < 0.1:
+                # the value is taken from the same document (`src["a"] = src["b"]`): both keys then denote equal
+                # values, and a later assignment to one of them must not show up under the other
+                k2 = rng.choice(leaf_keys)
+                ops.append({"op": "set", "on": on, "keys": prefix + [k], "value": {"from": prefix + [k2]}})
+                base[k] = base[k2]
+                continue
             val = py_value(rng, tag)
             ops.append({"op": "set", "on": on, "keys": prefix + [k], "value": val})
             base[k] = tokens_of_python(val)
@@ -375,7 +383,12 @@ def execute(case: dict):
             if op["op"] == "get":
                 got = cont[ks[-1]]
             elif op["op"] == "set":
-                cont[ks[-1]] = to_python(op["value"])
+                if isinstance(op["value"], dict) and list(op["value"]) == ["from"]:
+                    fk = op["value"]["from"]
+                    cont[ks[-1]] = world.container(on, fk)[fk[-1]]
+                    bump("probe:value_from_same_document")
+                else:
+                    cont[ks[-1]] = to_python(op["value"])
             else:
                 del cont[ks[-1]]
         except Exception as e:  # noqa: BLE001
@@ -417,7 +430,13 @@ def execute(case: dict):
             if exc is not None:
                 viols.append(Violation("C14.set_failed", "assignment of %r raised %r" % (k, exc), i, facts))
                 continue
-            parent[k] = tokens_of_python(op["value"])
+            if isinstance(op["value"], dict) and list(op["value"]) == ["from"]:
+                src_parent = base_tree
+                for kk in op["value"]["from"][:-1]:
+                    src_parent = src_parent[kk]
+                parent[k] = src_parent[op["value"]["from"][-1]]
+            else:
+                parent[k] = tokens_of_python(op["value"])
         else:
             if present:
                 bump("probe:del_present")
